@@ -2107,11 +2107,11 @@ func (l *LanguageServer) handleTextDocumentFormatting(
 }
 
 func (l *LanguageServer) handleWorkspaceDidCreateFiles(params types.WorkspaceDidCreateFilesParams) (any, error) {
-	if l.ignoreURI(params.Files[0].URI) {
-		return struct{}{}, nil
-	}
-
 	for _, createOp := range params.Files {
+		if l.ignoreURI(createOp.URI) {
+			continue
+		}
+
 		if _, _, err := cache.UpdateCacheForURIFromDisk(
 			l.cache,
 			uri.FromPath(l.clientIdentifier, createOp.URI),
@@ -2137,11 +2137,11 @@ func (l *LanguageServer) handleWorkspaceDidDeleteFiles(
 	ctx context.Context,
 	params types.WorkspaceDidDeleteFilesParams,
 ) (any, error) {
-	if l.ignoreURI(params.Files[0].URI) {
-		return struct{}{}, nil
-	}
-
 	for _, deleteOp := range params.Files {
+		if l.ignoreURI(deleteOp.URI) {
+			continue
+		}
+
 		l.cache.Delete(deleteOp.URI)
 
 		if err := l.sendFileDiagnostics(ctx, deleteOp.URI); err != nil {
